@@ -308,25 +308,20 @@ pub fn global_parse_int(
         s
     };
 
-    // Parse digits until invalid character
-    let mut result: i64 = 0;
-    let mut found_digit = false;
-
-    for c in s.chars() {
-        let digit = match c.to_digit(radix as u32) {
-            Some(d) => d as i64,
-            None => break,
-        };
-        found_digit = true;
-        result = result * (radix as i64) + digit;
-    }
-
-    if !found_digit {
+    // The longest prefix of digits (an integer accumulator would overflow on long inputs)
+    let digits_end = s
+        .char_indices()
+        .find(|(_, c)| !c.is_digit(radix as u32))
+        .map(|(i, _)| i)
+        .unwrap_or(s.len());
+    let Some(result) =
+        crate::value::radix_digits_to_number(s.get(..digits_end).unwrap_or(""), radix as u32)
+    else {
         return Ok(Guarded::unguarded(JsValue::Number(f64::NAN)));
-    }
+    };
 
     let result = if negative { -result } else { result };
-    Ok(Guarded::unguarded(JsValue::Number(result as f64)))
+    Ok(Guarded::unguarded(JsValue::Number(result)))
 }
 
 pub fn global_parse_float(
